@@ -214,6 +214,30 @@ pub fn run_glr(input: &str, partial: bool, max_trees: usize) -> String {
         GlrParser::new(&DEF, partial, t.layout.is_some(), lexer);
     match g.parse(input) {
         Ok(f) => {
+            if max_trees == 99999 {
+                // forest structure for the enumeration model (C03)
+                let n = f.solutions();
+                let mut s = format!("ok {} forest {}", n, f.verif_dump());
+                let k = n.min(40);
+                s.push_str(" @trees");
+                for i in 0..k + 2 {
+                    let idx = if i < k { i } else { n + (i - k) };
+                    match f.get_tree(idx) {
+                        Some(tr) => {
+                            let mut b = TreeBuilder::new();
+                            let tn: TN = tr.build::<_, St>(&mut b);
+                            let mut ts = String::new();
+                            tree(input, &tn, &mut ts);
+                            let _ = write!(s, " {idx}={}", shape_only(&ts));
+                        }
+                        None => {
+                            let _ = write!(s, " {idx}=none");
+                        }
+                    }
+                    s.push_str(" ;");
+                }
+                return s;
+            }
             if max_trees == 0 {
                 // C15: only the outcome of parse() itself is of interest (counting solutions of a
                 // highly ambiguous forest is exponential in the implementation)
@@ -276,6 +300,40 @@ pub fn matrix(input: &str) -> String {
             if let Some(l) = recognize(t, term, &input[p..]) {
                 let _ = write!(out, " {}@{}={}", term, p, l);
             }
+        }
+    }
+    out
+}
+
+/// tree text reduced to its shape: `(N prod child*)` / `(T kind start)`
+fn shape_only(ts: &str) -> String {
+    // tokens: "(N", prod, span, lay, ... ; "(T", kind, span, val, lay
+    let toks: Vec<&str> = ts.split(' ').collect();
+    let mut out = String::new();
+    let mut i = 0;
+    while i < toks.len() {
+        let t = toks[i];
+        if t.ends_with("(N") || t == "(N" {
+            out.push_str("(N");
+            out.push_str(toks[i + 1]);
+            i += 4; // (N prod span lay
+            // the lay token may carry closing parens
+            let lay = toks[i - 1];
+            let closes = lay.chars().rev().take_while(|c| *c == ')').count();
+            for _ in 0..closes {
+                out.push(')');
+            }
+        } else if t == "(T" {
+            let start = toks[i + 2].split(':').next().unwrap();
+            out.push_str(&format!("(T{}@{}", toks[i + 1], start));
+            i += 5; // (T kind span val lay)
+            let lay = toks[i - 1];
+            let closes = lay.chars().rev().take_while(|c| *c == ')').count();
+            for _ in 0..closes {
+                out.push(')');
+            }
+        } else {
+            i += 1;
         }
     }
     out
